@@ -653,6 +653,9 @@ def lossy_reason(term):
                     return "the stored list is read back as " + to + ": " + r
     if op == "reordered":
         return f"the stored values are passed through {term[1]}(): they come back in another order than the lines they belong to"
+    if op == "sub" and isinstance(term[2], tuple) and term[2][0] == "item0" and term[2][1] == term[1]:
+        # x - x[0] that survived simplification: nothing on the way back added the first element again (ref + (x - ref) folds to x)
+        return "the values are stored as offsets from their first element and read back without adding it again: every value comes back shifted by the first one"
     if op == "parse":
         to, inner = term[1], term[2]
         if isinstance(inner, tuple) and inner[0] == "str" and np_kind(to) == "M" and np_kind(inner[2]) == "M" and np_units(to) != np_units(inner[2]) and _finer(np_units(to), np_units(inner[2])) == np_units(inner[2]):
